@@ -129,17 +129,23 @@ public:
     void addIssueNotOfKind(const std::string &id, CellmlElementType type, const std::string &kind);
 
     /**
-     * @brief Return @p object, logging an issue if an item was found but it is not of the requested kind.
+     * @brief Return @p object if the item found is of the requested @p type, logging an issue otherwise.
      *
      * The typed look up methods promise an issue whenever they return a @c nullptr.  When the
-     * identifier belongs to an item of another kind the item is found (so nothing has been logged)
-     * but its typed accessor returns a @c nullptr: explain that.
+     * identifier belongs to an item of another kind the item is found (so nothing has been logged):
+     * explain that.  Kinds that are stored in the same class (a component and its component
+     * reference, a model and its encapsulation, a connection and a variable mapping, a reset and
+     * its test value and reset value) are told apart by the type of the item.
      */
     template<typename T>
-    T checkedKind(const std::string &id, const AnyCellmlElementPtr &item, const T &object, const std::string &kind)
+    T checkedKind(const std::string &id, const AnyCellmlElementPtr &item, const T &object, CellmlElementType type, const std::string &kind)
     {
-        if ((object == nullptr) && (item->type() != CellmlElementType::UNDEFINED)) {
+        if (item->type() == CellmlElementType::UNDEFINED) {
+            return object;
+        }
+        if ((object == nullptr) || (item->type() != type)) {
             addIssueNotOfKind(id, item->type(), kind);
+            return nullptr;
         }
         return object;
     }
@@ -660,157 +666,157 @@ std::vector<std::string> Annotator::ids()
 ComponentPtr Annotator::component(const std::string &id, size_t index)
 {
     auto foundItem = item(id, index);
-    return pFunc()->checkedKind(id, foundItem, foundItem->component(), "a component");
+    return pFunc()->checkedKind(id, foundItem, foundItem->component(), CellmlElementType::COMPONENT, "a component");
 }
 
 ComponentPtr Annotator::component(const std::string &id)
 {
     auto foundItem = item(id);
-    return pFunc()->checkedKind(id, foundItem, foundItem->component(), "a component");
+    return pFunc()->checkedKind(id, foundItem, foundItem->component(), CellmlElementType::COMPONENT, "a component");
 }
 
 ComponentPtr Annotator::componentEncapsulation(const std::string &id, size_t index)
 {
     auto foundItem = item(id, index);
-    return pFunc()->checkedKind(id, foundItem, foundItem->component(), "a component");
+    return pFunc()->checkedKind(id, foundItem, foundItem->component(), CellmlElementType::COMPONENT_REF, "a component reference");
 }
 
 ComponentPtr Annotator::componentEncapsulation(const std::string &id)
 {
     auto foundItem = item(id);
-    return pFunc()->checkedKind(id, foundItem, foundItem->component(), "a component");
+    return pFunc()->checkedKind(id, foundItem, foundItem->component(), CellmlElementType::COMPONENT_REF, "a component reference");
 }
 
 VariablePairPtr Annotator::connection(const std::string &id, size_t index)
 {
     auto foundItem = item(id, index);
-    return pFunc()->checkedKind(id, foundItem, foundItem->variablePair(), "a connection");
+    return pFunc()->checkedKind(id, foundItem, foundItem->variablePair(), CellmlElementType::CONNECTION, "a connection");
 }
 
 VariablePairPtr Annotator::connection(const std::string &id)
 {
     auto foundItem = item(id);
-    return pFunc()->checkedKind(id, foundItem, foundItem->variablePair(), "a connection");
+    return pFunc()->checkedKind(id, foundItem, foundItem->variablePair(), CellmlElementType::CONNECTION, "a connection");
 }
 
 ModelPtr Annotator::encapsulation(const std::string &id, size_t index)
 {
     auto foundItem = item(id, index);
-    return pFunc()->checkedKind(id, foundItem, foundItem->model(), "an encapsulation");
+    return pFunc()->checkedKind(id, foundItem, foundItem->model(), CellmlElementType::ENCAPSULATION, "an encapsulation");
 }
 
 ModelPtr Annotator::encapsulation(const std::string &id)
 {
     auto foundItem = item(id);
-    return pFunc()->checkedKind(id, foundItem, foundItem->model(), "an encapsulation");
+    return pFunc()->checkedKind(id, foundItem, foundItem->model(), CellmlElementType::ENCAPSULATION, "an encapsulation");
 }
 
 ImportSourcePtr Annotator::importSource(const std::string &id, size_t index)
 {
     auto foundItem = item(id, index);
-    return pFunc()->checkedKind(id, foundItem, foundItem->importSource(), "an import");
+    return pFunc()->checkedKind(id, foundItem, foundItem->importSource(), CellmlElementType::IMPORT, "an import");
 }
 
 ImportSourcePtr Annotator::importSource(const std::string &id)
 {
     auto foundItem = item(id);
-    return pFunc()->checkedKind(id, foundItem, foundItem->importSource(), "an import");
+    return pFunc()->checkedKind(id, foundItem, foundItem->importSource(), CellmlElementType::IMPORT, "an import");
 }
 
 VariablePairPtr Annotator::mapVariables(const std::string &id, size_t index)
 {
     auto foundItem = item(id, index);
-    return pFunc()->checkedKind(id, foundItem, foundItem->variablePair(), "a variable mapping");
+    return pFunc()->checkedKind(id, foundItem, foundItem->variablePair(), CellmlElementType::MAP_VARIABLES, "a variable mapping");
 }
 
 VariablePairPtr Annotator::mapVariables(const std::string &id)
 {
     auto foundItem = item(id);
-    return pFunc()->checkedKind(id, foundItem, foundItem->variablePair(), "a variable mapping");
+    return pFunc()->checkedKind(id, foundItem, foundItem->variablePair(), CellmlElementType::MAP_VARIABLES, "a variable mapping");
 }
 
 ModelPtr Annotator::model(const std::string &id, size_t index)
 {
     auto foundItem = item(id, index);
-    return pFunc()->checkedKind(id, foundItem, foundItem->model(), "a model");
+    return pFunc()->checkedKind(id, foundItem, foundItem->model(), CellmlElementType::MODEL, "a model");
 }
 
 ModelPtr Annotator::model(const std::string &id)
 {
     auto foundItem = item(id);
-    return pFunc()->checkedKind(id, foundItem, foundItem->model(), "a model");
+    return pFunc()->checkedKind(id, foundItem, foundItem->model(), CellmlElementType::MODEL, "a model");
 }
 
 ResetPtr Annotator::reset(const std::string &id, size_t index)
 {
     auto foundItem = item(id, index);
-    return pFunc()->checkedKind(id, foundItem, foundItem->reset(), "a reset");
+    return pFunc()->checkedKind(id, foundItem, foundItem->reset(), CellmlElementType::RESET, "a reset");
 }
 
 ResetPtr Annotator::reset(const std::string &id)
 {
     auto foundItem = item(id);
-    return pFunc()->checkedKind(id, foundItem, foundItem->reset(), "a reset");
+    return pFunc()->checkedKind(id, foundItem, foundItem->reset(), CellmlElementType::RESET, "a reset");
 }
 
 ResetPtr Annotator::resetValue(const std::string &id, size_t index)
 {
     auto foundItem = item(id, index);
-    return pFunc()->checkedKind(id, foundItem, foundItem->reset(), "a reset value");
+    return pFunc()->checkedKind(id, foundItem, foundItem->reset(), CellmlElementType::RESET_VALUE, "a reset value");
 }
 
 ResetPtr Annotator::resetValue(const std::string &id)
 {
     auto foundItem = item(id);
-    return pFunc()->checkedKind(id, foundItem, foundItem->reset(), "a reset value");
+    return pFunc()->checkedKind(id, foundItem, foundItem->reset(), CellmlElementType::RESET_VALUE, "a reset value");
 }
 
 ResetPtr Annotator::testValue(const std::string &id, size_t index)
 {
     auto foundItem = item(id, index);
-    return pFunc()->checkedKind(id, foundItem, foundItem->reset(), "a test value");
+    return pFunc()->checkedKind(id, foundItem, foundItem->reset(), CellmlElementType::TEST_VALUE, "a test value");
 }
 
 ResetPtr Annotator::testValue(const std::string &id)
 {
     auto foundItem = item(id);
-    return pFunc()->checkedKind(id, foundItem, foundItem->reset(), "a test value");
+    return pFunc()->checkedKind(id, foundItem, foundItem->reset(), CellmlElementType::TEST_VALUE, "a test value");
 }
 
 UnitsPtr Annotator::units(const std::string &id, size_t index)
 {
     auto foundItem = item(id, index);
-    return pFunc()->checkedKind(id, foundItem, foundItem->units(), "a units");
+    return pFunc()->checkedKind(id, foundItem, foundItem->units(), CellmlElementType::UNITS, "a units");
 }
 
 UnitsPtr Annotator::units(const std::string &id)
 {
     auto foundItem = item(id);
-    return pFunc()->checkedKind(id, foundItem, foundItem->units(), "a units");
+    return pFunc()->checkedKind(id, foundItem, foundItem->units(), CellmlElementType::UNITS, "a units");
 }
 
 UnitsItemPtr Annotator::unitsItem(const std::string &id, size_t index)
 {
     auto foundItem = item(id, index);
-    return pFunc()->checkedKind(id, foundItem, foundItem->unitsItem(), "a unit");
+    return pFunc()->checkedKind(id, foundItem, foundItem->unitsItem(), CellmlElementType::UNIT, "a unit");
 }
 
 UnitsItemPtr Annotator::unitsItem(const std::string &id)
 {
     auto foundItem = item(id);
-    return pFunc()->checkedKind(id, foundItem, foundItem->unitsItem(), "a unit");
+    return pFunc()->checkedKind(id, foundItem, foundItem->unitsItem(), CellmlElementType::UNIT, "a unit");
 }
 
 VariablePtr Annotator::variable(const std::string &id, size_t index)
 {
     auto foundItem = item(id, index);
-    return pFunc()->checkedKind(id, foundItem, foundItem->variable(), "a variable");
+    return pFunc()->checkedKind(id, foundItem, foundItem->variable(), CellmlElementType::VARIABLE, "a variable");
 }
 
 VariablePtr Annotator::variable(const std::string &id)
 {
     auto foundItem = item(id);
-    return pFunc()->checkedKind(id, foundItem, foundItem->variable(), "a variable");
+    return pFunc()->checkedKind(id, foundItem, foundItem->variable(), CellmlElementType::VARIABLE, "a variable");
 }
 
 void Annotator::clearAllIds()
